@@ -140,6 +140,11 @@ func (db *MultiBucketBackend) getBucketWithFilePrefixLocked(bucket string, prefi
 
 	bucketPath := path.Join(bucket, prefixPath)
 
+	if prefixPath != "" && objectInTheWay(db.bucketFs, bucket, bucketPath) {
+		// The prefix leads through an object, not a directory: no key matches it
+		return gofakes3.NewObjectList(), nil
+	}
+
 	dirEntries, err := afero.ReadDir(db.bucketFs, filepath.FromSlash(bucketPath))
 	if os.IsNotExist(err) {
 		// No directory for the prefix means no key matches it; only a
